@@ -526,7 +526,8 @@ def lattice_case(col, g, kind, rep, meta):
 # histories of queries and reassignments on one instance
 # ----------------------------------------------------------------------------------------------------------------------
 FIXED_PATTERNS = ["QQ", "QPQ", "PQ", "QWQ", "QPWQ", "IPQ", "QPI", "QPQPQ", "ZPZ", "QPQWQ", "WPQ", "QQPQQ", "QIQ", "TPQ", "QPT", "QPPQ",
-                  "EPQ", "QPE", "QEQ", "EQ", "QPQPQP", "QO", "OQ", "TO", "OT", "QOQ", "OO", "OPO", "QOWO", "ZO", "EO"]
+                  "EPQ", "QPE", "QEQ", "EQ", "QPQPQP", "QO", "OQ", "TO", "OT", "QOQ", "OO", "OPO", "QOWO", "ZO", "EO",
+                  "ZSZ", "QSZ", "TSZ", "OSZ", "ZSZSZ", "QSSZ", "SZ", "QSQZ"]       # S: points moved by a tiny amount
 
 
 def new_points(g, pts, variant):
@@ -550,7 +551,7 @@ def history_case(col, g, kind, pattern, rep, meta):
     b = build(kind, g)
     grid = b.grid
     if not b.can_set_points:
-        pattern = pattern.replace("P", "W")
+        pattern = pattern.replace("P", "W").replace("S", "W")
     st = {"kind": kind, "ghost_tree": None, "reassigned": False}
     n = grid.size
     trace = []
@@ -565,6 +566,16 @@ def history_case(col, g, kind, pattern, rep, meta):
                 if not np.array_equal(np.asarray(grid.points, dtype=float), new):
                     return False, f"step {step} ({pattern}): points after reassignment are not the assigned ones"
                 trace.append("P")
+                continue
+            if op == "S":
+                # "current points" also after a reassignment that moves them by very little (absolute and relative to the coordinates)
+                tiny = float(10.0 ** g.uniform(-9, -5.5))
+                new = pts + tiny * (g.normal(size=pts.shape) * max(1.0, extent_of(pts)) + np.abs(pts))
+                grid.points = new
+                st["reassigned"] = True
+                if not np.array_equal(np.asarray(grid.points, dtype=float), new):
+                    return False, f"step {step} ({pattern}): points after reassignment are not the assigned ones"
+                trace.append("S")
                 continue
             if op == "W":
                 new = g.uniform(0.1, 2.0, n)
@@ -852,7 +863,7 @@ def group_history(col, tier, seed, kinds=None, patterns=None):
             if patterns is not None and p not in patterns:
                 continue
             if kind.startswith("AtomGrid"):
-                p = p.replace("P", "W")
+                p = p.replace("P", "W").replace("S", "W")
             if kind.startswith("PeriodicGrid"):
                 p = p.replace("I", "")
             if not p or p in seen or not any(ch in p for ch in "QEIZTO"):
@@ -886,7 +897,7 @@ RULE = ("real get_localgrid on plain 1/2/3-D, one-dimensional (plain and quadrat
         "tensor-product and uniform (2-D/3-D, skewed), periodic-without-vectors, angular and local grids with 5..60 points incl. duplicated points: "
         "brute-force ball oracle for radii {0 on/off node, 1e-12, one point, typical, all but one, huge, 1e200/1.7e308, inf, empty, integer}, exact closed "
         "ball on integer lattices, centre as float/NumPy scalar/0-d/int array; index array integer, unique, maps back, weights carried, parent "
-        "untouched; histories (fixed patterns, all words over {query, empty query, inf query, set points, set weights} of length <= 3 (quick) / <= 5 (thorough), random words of <= 7 operations) of queries / point / weight "
+        "untouched; histories (fixed patterns, all words over {query, empty query, inf query, set points, set weights} of length <= 3 (quick) / <= 5 (thorough), random words of <= 7 operations, points moved by 1e-9..3e-6 followed by a zero-radius query) of queries / point / weight "
         "reassignments on one instance, interleaved instances, instances sharing the constructor array; selection by Python/NumPy ints, slices, index arrays, masks (incl. empty) on Grid, "
         "OneDGrid, PeriodicGrid with domain/lattice carried over and a query on the selection; distinct = (clause, grid kind, variant)")
 
